@@ -127,11 +127,13 @@ def task_sample(tier, seed, arg):
     R = Result("seeded random nested structures (depth<=3, <=4 entries per level, counts from a boundary set incl. "
                "0.001 and 1e6) over a pool of elements/isotopes/D/T/ions/isotope ions; each case checks formula(seq), "
                "f+g, n*f on all three code paths, f+=g and a random operator sequence against an independent recursive "
-               "count; tolerance 1e-12; bounded: %d cases; distinct = distinct (operation, shape) classes" % n)
+               "count; every 7th case uses a single atom for all leaves; tolerance 1e-12; bounded: %d cases; distinct = distinct (operation, shape) classes" % n)
     pool = nat.atom_pool()
     for i in range(n):
         try:
-            _run_case(R, rng, pool, "s%d-%d" % (seed, i))
+            # every 7th case draws all its leaves from ONE atom: several fragments of a single kind of atom is a
+            # boundary class of its own (the code special-cases single-atom formulas and single-fragment structures)
+            _run_case(R, rng, [rng.choice(pool)] if i % 7 == 3 else pool, "s%d-%d" % (seed, i))
         except Exception as e:   # the property allows no exception for these inputs
             R.violation("sample:exception:%s" % type(e).__name__, "composition arithmetic raised %s: %s" % (type(e).__name__, e),
                         {"id": "s%d-%d" % (seed, i)})
